@@ -32,6 +32,10 @@ def classify(data, spa):
     return "inner", verb_of(data), True, True
 
 
+class NoConnection(env.MachineryError):
+    """the client did not get connected to the bundled simulator over a fault-free network within 90 s"""
+
+
 class EngineScenario:
     def __init__(self, rng, rank="stable", fault=None, snapshot=None, on_event=None):
         self.rng = rng
@@ -42,7 +46,7 @@ class EngineScenario:
         s = self.s
         if not s.wait_connected(90, need_update=True):
             s.close()
-            raise env.MachineryError("engine scenario: no connection")
+            raise NoConnection("engine scenario: no connection")
         s.quiesce()
         self.spa = s.spa
         self.tr = s.conn_transport()
